@@ -74,3 +74,36 @@ Proof.
     destruct (t - 1262304000 <? 1)%Z eqn:A; [lia|]. destruct (4294967295 <? t - 1262304000)%Z eqn:B; [apply Z.ltb_lt in B; lia|]. apply Z.ltb_ge in A. lia.
 Qed.
 Print Assumptions C11_expiry_as_requested.
+
+(* "an extendable key cannot itself be used to publish or subscribe" - over the broker model
+   (Model/Broker.v, generic in the subscription index; tied to the real broker by the broker harness and
+   by the CExtUse cases of the c11 harness).  Before the repair of F16 the third statement was false: a
+   link request asking to be subscribed did subscribe an extendable key. *)
+From Emitter Require Import Model.Murmur Model.Trie Model.Store Model.Broker Proofs.BrokerExtend.
+
+Theorem C11_extendable_key_cannot_subscribe : forall (I : Type) (X : ixops I) e (b : @broker I) i c topic k,
+  let ch := parse_channel (repl_dslash (repl_hash topic)) in
+  (c_type ch =? ChannelInvalid) = false -> auth e ch AllowRead = Some k -> has_permission k AllowExtend = true ->
+  on_subscribe X e b i c topic = (b, Some 401).
+Proof. intros I X. exact (extendable_key_cannot_subscribe X). Qed.
+Print Assumptions C11_extendable_key_cannot_subscribe.
+
+Theorem C11_extendable_key_cannot_publish : forall (I : Type) (X : ixops I) e (b : @broker I) i c mid retain topic payload r k,
+  let ch := parse_channel (get_link c topic) in     (* the topic itself, or the channel a link name stands for *)
+  (c_type ch =? ChannelInvalid) = false -> (c_type ch =? ChannelStatic) = true -> bytes_eqb (c_key ch) s_emitter = false ->
+  auth e ch AllowWrite = Some k -> has_permission k AllowExtend = true ->
+  on_publish X e b i c mid retain topic payload r = (b, Some 401).
+Proof. intros I X. exact (extendable_key_cannot_publish X). Qed.
+Print Assumptions C11_extendable_key_cannot_publish.
+
+Theorem C11_extendable_key_link_subscribes_nothing : forall (I : Type) (X : ixops I) e (b : @broker I) i c ch mid name key channel sub k,
+  c_query ch = [h_link] ->
+  let lc := parse_channel (key ++ [47] ++ channel) in
+  auth e lc AllowRead = Some k -> has_permission k AllowExtend = true ->
+  let b' := on_emitter X e b i c ch mid (ELink name key channel sub) in
+  b_trie b' = b_trie b /\ b_store b' = b_store b /\ b_queue b' = b_queue b
+  /\ (forall j, j <> i -> get_conn (b_conns b') (N.to_nat j) = get_conn (b_conns b) (N.to_nat j))
+  /\ (forall c', get_conn (b_conns b') (N.to_nat i) = Some c' -> get_conn (b_conns b) (N.to_nat i) = Some c -> cn_ctrs c' = cn_ctrs c)
+  /\ exists p, b_out b' = b_out b ++ [(i, p)].
+Proof. intros I X. exact (extendable_key_link_subscribes_nothing X). Qed.
+Print Assumptions C11_extendable_key_link_subscribes_nothing.
